@@ -22,10 +22,14 @@ var Selectors = []string{"lt", "le", "first", "second", "gt"}
 var Kinds = []string{KSlice, KNoReset, KDisparity}
 
 // Case is two value sequences, the kind of source each is served from, a selector and a call program:
-// one letter per call, h = HasNext, n = Next, r = Reset. After the program the mixer is drained with Next.
+// one letter per call, h = HasNext, n = Next, r = Reset, i = Init again on the same Mixer value with fresh
+// iterators (same kinds) over the other pair of inputs: the first i switches to (A2,B2), the next one back
+// to (A,B) and so on. After the program the mixer is drained with Next.
 type Case struct {
 	A    []int  `json:"a"`
 	B    []int  `json:"b"`
+	A2   []int  `json:"a2,omitempty"`
+	B2   []int  `json:"b2,omitempty"`
 	KA   string `json:"ka"`
 	KB   string `json:"kb"`
 	Sel  string `json:"sel"`
@@ -46,39 +50,51 @@ type Info struct {
 	PastEnd      bool // the program called Next/HasNext after the end had been observed
 	Phantom      bool // a disparity source's lying HasNext was consumed while the other source still had elements
 	PhantomAny   bool // a disparity source is present
+	ReInit       bool // Init was called again on the used mixer
+	ReInitLook   bool // ... while a look-ahead was pending (after a HasNext that said true, or in the middle of a merge)
+	ReInitEmpty  bool // ... with at least one empty new input
+	ReInitDiff   bool // ... with inputs that differ from the previous ones
+	SelCalls     int  // selector calls made by the mixer
 	Sorted       bool // both inputs sorted under the selector (lt/le ascending, gt descending), both non-empty
 	Emitted      int
 }
 
-// element encoding: value*1000 + side*100 + index, so every element of a case is unique and the
-// origin of each emitted element is observable (ties!). Selectors see value = e/1000 only.
-func enc(vals []int, side int) []int {
+// element encoding: value<<15 | generation<<8 | side<<7 | index, so every element of a case is unique
+// (also across re-Inits: generation = number of Init calls before) and the origin of each emitted
+// element is observable (ties, stale look-ahead!). Selectors see value = e>>15 only; 0 is never an element.
+func enc(vals []int, side, gen int) []int {
 	out := make([]int, len(vals))
 	for i, v := range vals {
-		out[i] = v*1000 + side*100 + i
+		out[i] = v<<15 | (gen&127)<<8 | side<<7 | i
 	}
 	return out
 }
 
+func val(e int) int { return e >> 15 }
+
 func show(e int) string {
-	if e < 1000 {
+	if e < 1<<15 {
 		return fmt.Sprintf("raw(%d)", e)
 	}
-	return fmt.Sprintf("%d(%c[%d])", e/1000, "AB"[(e/100)%10&1], e%100)
+	g := ""
+	if gen := (e >> 8) & 127; gen > 0 {
+		g = fmt.Sprintf(" of Init #%d", gen)
+	}
+	return fmt.Sprintf("%d(%c[%d]%s)", val(e), "AB"[(e>>7)&1], e&127, g)
 }
 
 func selector(id string) iterable.SelectF[int] {
 	switch id {
 	case "lt":
-		return func(a, b int) bool { return a/1000 < b/1000 }
+		return func(a, b int) bool { return val(a) < val(b) }
 	case "le":
-		return func(a, b int) bool { return a/1000 <= b/1000 }
+		return func(a, b int) bool { return val(a) <= val(b) }
 	case "first":
 		return func(a, b int) bool { return true }
 	case "second":
 		return func(a, b int) bool { return false }
 	case "gt":
-		return func(a, b int) bool { return a/1000 > b/1000 }
+		return func(a, b int) bool { return val(a) > val(b) }
 	}
 	panic("bad selector " + id)
 }
@@ -149,40 +165,83 @@ func Run(c Case) (info Info, v *vstat.Violation) {
 }
 
 func run(c Case, info *Info) *vstat.Violation {
-	if len(c.A) > 99 || len(c.B) > 99 {
-		panic("inputs longer than 99 are not encodable")
-	}
-	for _, v := range c.A {
-		if v < 1 {
-			panic("values must be >= 1")
+	for _, s := range [][]int{c.A, c.B, c.A2, c.B2} {
+		if len(s) > 99 {
+			panic("inputs longer than 99 are not encodable")
+		}
+		for _, v := range s {
+			if v < 1 {
+				panic("values must be >= 1")
+			}
 		}
 	}
-	for _, v := range c.B {
-		if v < 1 {
-			panic("values must be >= 1")
-		}
-	}
-	a, b := enc(c.A, 0), enc(c.B, 1)
 	sel := selector(c.Sel)
-	sa, sb := source(c.KA, a), source(c.KB, b)
-	var m iterable.Mixer[int]
-	m.Init(sel, sa, sb)
 	resettable := c.KA != KNoReset && c.KB != KNoReset
-
-	info.OneEmpty = (len(a) == 0) != (len(b) == 0)
-	info.BothEmpty = len(a) == 0 && len(b) == 0
 	info.PhantomAny = c.KA == KDisparity || c.KB == KDisparity
-	info.Sorted = len(a) > 0 && len(b) > 0 && sortedUnder(c.Sel, c.A) && sortedUnder(c.Sel, c.B)
 
-	// reference: two pointers; the head of input 1 goes out iff input 2 is exhausted or
-	// (input 1 is not exhausted and the selector prefers head 1).
+	// reference state: the current inputs and two pointers
+	var a, b []int
 	i, j := 0, 0
+
+	// the selector handed to the mixer is the pure selector plus a check: the preference is defined on the
+	// current heads of the two inputs, so it must be asked about exactly (head of input 1, head of input 2)
+	// and never when an input has no head (zero value, stale or already emitted element).
+	var selViol *vstat.Violation
+	checking := func(x, y int) bool {
+		info.SelCalls++
+		if selViol == nil {
+			switch {
+			case i >= len(a) || j >= len(b):
+				selViol = vstat.V("mixer:selector-got-non-head", "selector called with (%s, %s) although an input has no head (consumed A=%d/%d B=%d/%d)",
+					show(x), show(y), i, len(a), j, len(b))
+			case x != a[i] || y != b[j]:
+				selViol = vstat.V("mixer:selector-got-non-head", "selector called with (%s, %s), the heads are (%s, %s) (consumed A=%d/%d B=%d/%d)",
+					show(x), show(y), show(a[i]), show(b[j]), i, len(a), j, len(b))
+			}
+		}
+		return sel(x, y)
+	}
+
+	var m iterable.Mixer[int]
+	var sa, sb iterable.Iterator[int]
+	var phantoms []*disparity
+	gen := 0
+	initMixer := func() {
+		va, vb := c.A, c.B
+		if gen%2 == 1 {
+			va, vb = c.A2, c.B2
+		}
+		a, b = enc(va, 0, gen), enc(vb, 1, gen)
+		i, j = 0, 0
+		sa, sb = source(c.KA, a), source(c.KB, b)
+		if c.KA == KDisparity {
+			phantoms = append(phantoms, sa.(*disparity))
+		}
+		if c.KB == KDisparity {
+			phantoms = append(phantoms, sb.(*disparity))
+		}
+		m.Init(checking, sa, sb)
+		gen++
+		if len(a) > 0 && len(b) > 0 && sortedUnder(c.Sel, va) && sortedUnder(c.Sel, vb) {
+			info.Sorted = true
+		}
+		if (len(a) == 0) != (len(b) == 0) {
+			info.OneEmpty = true
+		}
+		if len(a) == 0 && len(b) == 0 {
+			info.BothEmpty = true
+		}
+	}
+	initMixer()
+
+	// reference: the head of input 1 goes out iff input 2 is exhausted or
+	// (input 1 is not exhausted and the selector prefers head 1).
 	peek := func() (e int, ok bool, first bool) {
 		switch {
 		case i < len(a) && j >= len(b):
 			return a[i], true, true
 		case i < len(a) && j < len(b):
-			if a[i]/1000 == b[j]/1000 {
+			if val(a[i]) == val(b[j]) {
 				info.Tie = true
 			}
 			if sel(a[i], b[j]) {
@@ -211,6 +270,9 @@ func run(c Case, info *Info) *vstat.Violation {
 	next := func(wheref func() string) *vstat.Violation {
 		where := lazyStr(wheref)
 		got, ok := m.Next()
+		if selViol != nil {
+			return vstat.V(selViol.Sig, "%s: during Next: %s", where, selViol.Msg)
+		}
 		want, wok, first := peek()
 		if lastH != nil && *lastH != ok {
 			return vstat.V("mixer:hasnext-next-disagree", "%s: HasNext said %v, the following Next returned ok=%v (%s)", where, *lastH, ok, state())
@@ -240,6 +302,9 @@ func run(c Case, info *Info) *vstat.Violation {
 		switch c.Prog[p] {
 		case 'h':
 			got := m.HasNext()
+			if selViol != nil {
+				return vstat.V(selViol.Sig, "%s: during HasNext: %s", where, selViol.Msg)
+			}
 			_, want, _ := peek()
 			if lastH != nil && *lastH != got {
 				return vstat.V("mixer:hasnext-not-idempotent", "%s: HasNext changed its answer from %v to %v without a Next in between (%s)", where, *lastH, got, state())
@@ -271,6 +336,9 @@ func run(c Case, info *Info) *vstat.Violation {
 			lastH, hRun = nil, 0
 		case 'r':
 			err := m.Reset()
+			if selViol != nil {
+				return vstat.V(selViol.Sig, "%s: during Reset: %s", where, selViol.Msg)
+			}
 			if !resettable {
 				info.ResetRefused = true
 				if err == nil {
@@ -292,6 +360,23 @@ func run(c Case, info *Info) *vstat.Violation {
 				info.ResetMid = true
 			}
 			i, j = 0, 0
+			lastH, hRun, sawEnd, sinceReset = nil, 0, false, 0
+		case 'i':
+			info.ReInit = true
+			if (lastH != nil && *lastH) || (sinceReset > 0 && !sawEnd) {
+				info.ReInitLook = true
+			}
+			pa, pb := a, b
+			initMixer()
+			if selViol != nil {
+				return vstat.V(selViol.Sig, "%s: during Init: %s", where, selViol.Msg)
+			}
+			if len(a) == 0 || len(b) == 0 {
+				info.ReInitEmpty = true
+			}
+			if !sameValues(pa, a) || !sameValues(pb, b) {
+				info.ReInitDiff = true
+			}
 			lastH, hRun, sawEnd, sinceReset = nil, 0, false, 0
 		default:
 			panic("bad call " + string(c.Prog[p]))
@@ -315,12 +400,27 @@ func run(c Case, info *Info) *vstat.Violation {
 	if got, ok := m.Next(); ok {
 		return vstat.V("mixer:next-past-end", "after the final drain Next returned (%s,true)", show(got))
 	}
-	for _, s := range []iterable.Iterator[int]{sa, sb} {
-		if d, ok := s.(*disparity); ok && d.phantom > 0 {
+	if selViol != nil {
+		return vstat.V(selViol.Sig, "after the final drain: %s", selViol.Msg)
+	}
+	for _, d := range phantoms {
+		if d.phantom > 0 {
 			info.Phantom = true
 		}
 	}
 	return nil
+}
+
+func sameValues(x, y []int) bool {
+	if len(x) != len(y) {
+		return false
+	}
+	for k := range x {
+		if val(x[k]) != val(y[k]) {
+			return false
+		}
+	}
+	return true
 }
 
 // lazyStr formats only when a violation message is actually built.
@@ -367,6 +467,14 @@ func (c Case) Hash() uint64 {
 		mix(uint64(int64(v)))
 	}
 	mix(0xfffd)
+	for _, v := range c.A2 {
+		mix(uint64(int64(v)))
+	}
+	mix(0xfffc)
+	for _, v := range c.B2 {
+		mix(uint64(int64(v)))
+	}
+	mix(0xfffb)
 	mixs(c.KA)
 	mixs(c.KB)
 	mixs(c.Sel)
@@ -376,14 +484,15 @@ func (c Case) Hash() uint64 {
 
 // NonTrivial is the rule of C18: the case exercises something mixer_test.go does not - a tie between
 // the two heads, exactly one empty input, a successful Reset in the middle of the merge or on a loaded
-// look-ahead or after the end, HasNext repeated, or a lying final HasNext of a source.
+// look-ahead or after the end, HasNext repeated, a lying final HasNext of a source, or Init called again
+// on the mixer while a look-ahead was pending.
 func (i Info) NonTrivial() bool {
-	return i.Tie || i.OneEmpty || i.ResetMid || i.ResetLook || i.ResetAtEnd || i.RepeatH || i.Phantom
+	return i.Tie || i.OneEmpty || i.ResetMid || i.ResetLook || i.ResetAtEnd || i.RepeatH || i.Phantom || i.ReInitLook
 }
 
 // Classes for the histogram.
 func (i Info) Classes() []string {
-	c := make([]string, 0, 8)
+	c := make([]string, 0, 12)
 	add := func(b bool, s string) {
 		if b {
 			c = append(c, s)
@@ -403,5 +512,10 @@ func (i Info) Classes() []string {
 	add(i.PhantomAny, "disparity_source")
 	add(i.Sorted, "both_sorted_under_selector")
 	add(i.Emitted >= 20, "emitted_ge_20")
+	add(i.ReInit, "reinit")
+	add(i.ReInitLook, "reinit_with_pending_lookahead")
+	add(i.ReInitEmpty, "reinit_with_an_empty_input")
+	add(i.ReInitDiff, "reinit_with_different_inputs")
+	add(i.SelCalls > 0, "selector_consulted")
 	return c
 }
